@@ -2,6 +2,7 @@ package gem
 
 import (
 	"fmt"
+	"math"
 	"regexp"
 	"strconv"
 	"strings"
@@ -41,12 +42,8 @@ func (e *Ecosystem) NewVersion(version string) (*Version, error) {
 		return nil, fmt.Errorf("invalid Ruby Gem version: %s", original)
 	}
 
-	// Canonicalize and parse segments
-	canonical := canonicalizeVersion(version)
-	segments, err := parseSegments(canonical)
-	if err != nil {
-		return nil, fmt.Errorf("failed to parse version %s: %v", original, err)
-	}
+	// Split into segments the way Gem::Version does
+	segments := parseSegments(version)
 
 	return &Version{
 		segments: segments,
@@ -54,145 +51,46 @@ func (e *Ecosystem) NewVersion(version string) (*Version, error) {
 	}, nil
 }
 
-// canonicalizeVersion transforms version string to canonical form
-func canonicalizeVersion(version string) string {
-	// Handle prerelease indicators (-, +)
-	parts := strings.FieldsFunc(version, func(r rune) bool {
-		return r == '-' || r == '+'
-	})
+// segmentPattern matches one version segment: a run of digits or of letters
+var segmentPattern = regexp.MustCompile(`[0-9]+|[a-zA-Z]+`)
 
-	if len(parts) == 0 {
-		return version
-	}
+// parseSegments splits a version into segments like Gem::Version: a hyphen
+// stands for ".pre.", segments are the runs of digits and of letters, and
+// zeros at the end of the numeric part and at the end of the version are
+// dropped (1.0.rc1 == 1.rc1, 1.0 == 1). Build metadata (+...) keeps taking
+// part in the comparison like further dotted segments.
+func parseSegments(version string) []segment {
+	version = strings.ReplaceAll(version, "-", ".pre.")
+	version = strings.ReplaceAll(version, "+", ".")
 
-	// Process main version part
-	main := parts[0]
-	result := addDotsBetweenNumericAndAlpha(main)
-
-	// Add prerelease/build parts back
-	for i := 1; i < len(parts); i++ {
-		if strings.Contains(version, "-"+parts[i]) {
-			result += "-" + addDotsBetweenNumericAndAlpha(parts[i])
-		} else {
-			result += "+" + addDotsBetweenNumericAndAlpha(parts[i])
-		}
-	}
-
-	return result
-}
-
-// addDotsBetweenNumericAndAlpha adds dots between numeric and alphabetic segments
-func addDotsBetweenNumericAndAlpha(s string) string {
-	if len(s) == 0 {
-		return s
-	}
-
-	var result strings.Builder
-	var prev rune
-
-	for i, r := range s {
-		if i > 0 {
-			isCurrentNumeric := r >= '0' && r <= '9'
-			isPrevNumeric := prev >= '0' && prev <= '9'
-
-			// Add dot if transitioning between numeric and alpha
-			if (isCurrentNumeric && !isPrevNumeric) || (!isCurrentNumeric && isPrevNumeric) {
-				if prev != '.' && r != '.' {
-					result.WriteRune('.')
-				}
-			}
-		}
-		result.WriteRune(r)
-		prev = r
-	}
-
-	return result.String()
-}
-
-// parseSegments parses canonical version into segments
-func parseSegments(version string) ([]segment, error) {
 	var segments []segment
-
-	// First handle prerelease/build separators at top level
-	mainPart := version
-	prereleasePart := ""
-	buildPart := ""
-
-	// Extract build metadata (after +)
-	if plusIndex := strings.Index(version, "+"); plusIndex != -1 {
-		buildPart = version[plusIndex+1:]
-		mainPart = version[:plusIndex]
+	for _, part := range segmentPattern.FindAllString(version, -1) {
+		segments = append(segments, createSegment(part))
 	}
 
-	// Extract prerelease (after -)
-	if dashIndex := strings.Index(mainPart, "-"); dashIndex != -1 {
-		prereleasePart = mainPart[dashIndex+1:]
-		mainPart = mainPart[:dashIndex]
-	}
-
-	// Parse main version parts (numeric segments)
-	parts := strings.Split(mainPart, ".")
-	for _, part := range parts {
-		if part == "" {
-			continue
-		}
-
-		// Check if this part contains letters (prerelease indicator)
-		if containsLetter(part) {
-			// This is a prerelease segment
-			segments = append(segments, createSegment(part))
-		} else {
-			// This is a numeric segment
-			segments = append(segments, createSegment(part))
+	// Split at the first string segment and drop the trailing zeros of both halves
+	firstString := len(segments)
+	for i, seg := range segments {
+		if !seg.isNumeric {
+			firstString = i
+			break
 		}
 	}
+	numeric := removeTrailingZeros(segments[:firstString])
+	rest := removeTrailingZeros(segments[firstString:])
 
-	// Add prerelease segments
-	if prereleasePart != "" {
-		prereleaseParts := strings.Split(prereleasePart, ".")
-		for _, part := range prereleaseParts {
-			if part != "" {
-				// Prerelease parts are always treated as non-numeric for comparison purposes
-				segments = append(segments, segment{
-					value:     strings.ToLower(part),
-					isNumeric: false,
-					numValue:  0,
-				})
-			}
-		}
-	}
-
-	// Add build segments
-	if buildPart != "" {
-		buildParts := strings.Split(buildPart, ".")
-		for _, part := range buildParts {
-			if part != "" {
-				segments = append(segments, createSegment(part))
-			}
-		}
-	}
-
-	// Remove trailing zero segments from numeric part only
-	segments = removeTrailingZeros(segments)
-
-	return segments, nil
-}
-
-// containsLetter checks if string contains any letter
-func containsLetter(s string) bool {
-	for _, r := range s {
-		if (r >= 'a' && r <= 'z') || (r >= 'A' && r <= 'Z') {
-			return true
-		}
-	}
-	return false
+	return append(append([]segment{}, numeric...), rest...)
 }
 
 // createSegment creates a segment from a string part
 func createSegment(part string) segment {
-	if numValue, err := strconv.Atoi(part); err == nil {
+	if part[0] >= '0' && part[0] <= '9' {
+		numValue, err := strconv.Atoi(part)
+		if err != nil {
+			numValue = math.MaxInt // only used for range arithmetic; comparison uses the digits
+		}
 		return segment{
-			value:     part,
+			value:     strings.TrimLeft(part, "0"),
 			isNumeric: true,
 			numValue:  numValue,
 		}
@@ -206,7 +104,7 @@ func createSegment(part string) segment {
 
 // removeTrailingZeros removes trailing zero segments
 func removeTrailingZeros(segments []segment) []segment {
-	for len(segments) > 1 && segments[len(segments)-1].isNumeric && segments[len(segments)-1].numValue == 0 {
+	for len(segments) > 0 && segments[len(segments)-1].isNumeric && segments[len(segments)-1].value == "" {
 		segments = segments[:len(segments)-1]
 	}
 	return segments
@@ -217,32 +115,12 @@ func (v *Version) String() string {
 	return v.original
 }
 
-// Compare compares this version with another Ruby Gem version
+// Compare compares this version with another Ruby Gem version like
+// Gem::Version#<=>: segment by segment, a missing segment counting as 0.
+// A version with a letter is therefore a prerelease of the version formed
+// by the segments before the letter (2.0.0.rc1 < 2.0.0).
 func (v *Version) Compare(other *Version) int {
-	// First compare the numeric parts
-	vNumeric, vPrerelease := v.splitNumericAndPrerelease()
-	oNumeric, oPrerelease := other.splitNumericAndPrerelease()
-
-	// Compare numeric parts first
-	numericCmp := compareSegmentArrays(vNumeric, oNumeric)
-	if numericCmp != 0 {
-		return numericCmp
-	}
-
-	// If numeric parts are equal, compare prerelease parts
-	// No prerelease > prerelease
-	if len(vPrerelease) == 0 && len(oPrerelease) == 0 {
-		return 0
-	}
-	if len(vPrerelease) == 0 {
-		return 1 // release > prerelease
-	}
-	if len(oPrerelease) == 0 {
-		return -1 // prerelease < release
-	}
-
-	// Both have prerelease, compare them
-	return compareSegmentArrays(vPrerelease, oPrerelease)
+	return compareSegmentArrays(v.segments, other.segments)
 }
 
 // splitNumericAndPrerelease splits version into numeric and prerelease parts
@@ -270,13 +148,13 @@ func compareSegmentArrays(a, b []segment) int {
 		if i < len(a) {
 			aSeg = a[i]
 		} else {
-			aSeg = segment{value: "0", isNumeric: true, numValue: 0}
+			aSeg = segment{value: "", isNumeric: true, numValue: 0}
 		}
 
 		if i < len(b) {
 			bSeg = b[i]
 		} else {
-			bSeg = segment{value: "0", isNumeric: true, numValue: 0}
+			bSeg = segment{value: "", isNumeric: true, numValue: 0}
 		}
 
 		cmp := compareSegments(aSeg, bSeg)
@@ -290,17 +168,20 @@ func compareSegmentArrays(a, b []segment) int {
 
 // compareSegments compares two version segments
 func compareSegments(a, b segment) int {
-	// Both numeric
+	// Both numeric: numbers of any length, stored without leading zeros
 	if a.isNumeric && b.isNumeric {
-		return compareInt(a.numValue, b.numValue)
+		if len(a.value) != len(b.value) {
+			return compareInt(len(a.value), len(b.value))
+		}
+		return strings.Compare(a.value, b.value)
 	}
 
-	// One numeric, one string - in prerelease context, strings have precedence
+	// One numeric, one string - a string segment is lower than a number
 	if a.isNumeric && !b.isNumeric {
-		return -1
+		return 1
 	}
 	if !a.isNumeric && b.isNumeric {
-		return 1
+		return -1
 	}
 
 	// Both strings - lexical comparison
